@@ -98,6 +98,9 @@ Proof. intros H s Hs. unfold p_map. now rewrite H. Qed.
 Lemma Loc_alt {A} (p1 p2 q1 q2 : parser A) : Loc p1 p2 -> Loc q1 q2 -> Loc (p_alt p1 q1) (p_alt p2 q2).
 Proof. intros Hp Hq s Hs. unfold p_alt. now rewrite Hp, Hq. Qed.
 
+Lemma Loc_restore {A} (p1 p2 : parser A) : Loc p1 p2 -> Loc (p_restore p1) (p_restore p2).
+Proof. intros H s Hs. unfold p_restore. now rewrite H. Qed.
+
 Lemma Loc_opt {A} (p1 p2 : parser A) : Loc p1 p2 -> Loc (p_opt p1) (p_opt p2).
 Proof. intros H s Hs. unfold p_opt. now rewrite H. Qed.
 
@@ -246,7 +249,7 @@ Ltac loc_step :=
   [ assumption
   | apply Loc_fuel
   | apply Loc_tag | apply Loc_comments | apply Loc_ret
-  | apply Loc_map | apply Loc_alt | apply Loc_opt | apply Loc_info | apply Loc_expect | apply Loc_ref
+  | apply Loc_map | apply Loc_restore | apply Loc_alt | apply Loc_opt | apply Loc_info | apply Loc_expect | apply Loc_ref
   | apply Loc_confusable
   | apply Loc_peek; [la_agree]
   | apply Loc_ignore0; [la_agree | la_j]
